@@ -256,7 +256,36 @@ def r_c04(p):
     return c04.replay_c04(p)
 
 
+def r_xh(p):
+    """Engine X counterexample: rebuild the harness module from its recorded source and run the
+    harness on CrossHair's arguments on plain CPython."""
+    import os
+    import tempfile
+    from .xh import harness
+    d = tempfile.mkdtemp(prefix='bearxh')
+    try:
+        path = os.path.join(d, 'xh_replay_mod.py')
+        with open(path, 'w') as f:
+            f.write(p['source'])
+        old = harness.BUILD
+        harness.BUILD = d
+        try:
+            return harness.replay_counterexample(path, p['counterexample'])
+        finally:
+            harness.BUILD = old
+    finally:
+        import shutil
+        shutil.rmtree(d, ignore_errors=True)
+
+
+def r_c06(p):
+    from . import c06
+    return c06.replay_c06(p)
+
+
 REPLAYERS = {
+    'c06': r_c06,
+    'xh': r_xh,
     'c04': r_c04,
     'vale_disagree': r_vale_disagree,
     'rewrite_disagree': r_rewrite_disagree,
